@@ -216,7 +216,7 @@ def run_job(job, keep=True, trace=False):
         r.status = 'inconclusive'; r.reason = 'quantifier ignored by the SAT back end'
         return r
     # vacuity guard (a): expected obligation kinds must be present
-    ids = [p for (p, d, s) in r.props]
+    ids = [p + ' ' + d for (p, d, s) in r.props]
     for kind in job.expect_kinds:
         if not any(re.search(kind, i) for i in ids):
             r.status = 'inconclusive'; r.reason = 'vacuity guard: no obligation matching %r was generated' % kind
